@@ -114,11 +114,28 @@ func TestC17BinaryFailClosed(t *testing.T) {
 // Black-box order witness through the real binary
 // ---------------------------------------------------------------------------------------------
 
+// backendHit is one request as the live backend received it.
+type backendHit struct {
+	URI string // request-target as received
+	Req string // X-Verif-Req as received by the backend
+	RID bool
+}
+
 type backendSeen struct {
 	mu   sync.Mutex
-	hits int
-	req  string // X-Verif-Req as received by the backend
-	rid  bool
+	hits []backendHit
+}
+
+func (b *backendSeen) count() int {
+	b.mu.Lock()
+	defer b.mu.Unlock()
+	return len(b.hits)
+}
+
+func (b *backendSeen) since(n int) []backendHit {
+	b.mu.Lock()
+	defer b.mu.Unlock()
+	return append([]backendHit(nil), b.hits[n:]...)
 }
 
 func startBackend(t testing.TB) (*httptest.Server, *backendSeen) {
@@ -126,9 +143,7 @@ func startBackend(t testing.TB) (*httptest.Server, *backendSeen) {
 	srv := httptest.NewServer(http.HandlerFunc(func(w http.ResponseWriter, r *http.Request) {
 		_, _ = io.Copy(io.Discard, r.Body)
 		seen.mu.Lock()
-		seen.hits++
-		seen.req = r.Header.Get(hdrReq)
-		seen.rid = r.Header.Get("X-Request-ID") != ""
+		seen.hits = append(seen.hits, backendHit{URI: r.RequestURI, Req: r.Header.Get(hdrReq), RID: r.Header.Get("X-Request-ID") != ""})
 		seen.mu.Unlock()
 		w.Header().Set("Content-Type", "text/plain")
 		w.Header().Set("X-Verif-Backend", "1")
@@ -141,6 +156,81 @@ type witnessCase struct {
 	Chain []Elem `json:"chain"`
 	Req   Req    `json:"req"`  // as it arrives at Helios
 	Wire  string `json:"wire"` // X-API-Key value handed to the HTTP client
+	// Sweep: further requests sent to the same process after Req, one per target family
+	Sweep []sweepReq `json:"sweep,omitempty"`
+}
+
+type sweepReq struct {
+	Req  Req    `json:"req"`
+	Wire string `json:"wire,omitempty"` // when it differs from Req.APIKey
+}
+
+// asArrives: over a real socket the HTTP parser trims field values and CR/LF cannot be sent: the
+// request is modelled with the value that ARRIVES (a padded key can never be matched, a
+// whitespace-only configured key rejects everybody, a whitespace-only request value arrives empty)
+func asArrives(rq Req) (arrives Req, wire string) {
+	rq.ReqMark = "" // hop through a real proxy: keep the client mark out of the picture
+	wire = rq.APIKey
+	if strings.ContainsAny(wire, "\r\n") {
+		wire = "wrong"
+	}
+	rq.APIKey = strings.Trim(wire, " \t")
+	return rq, wire
+}
+
+// witnessObs is what one request through the real binary showed.
+type witnessObs struct {
+	target  string // expanded request-target
+	logPath string // the URL path the server's parser makes of it
+	status  int
+	hdr     http.Header
+	err     error
+	hits    []backendHit // what the backend received while this request was being served
+}
+
+// witnessDiff compares one observation with the prediction for its request; pluginLines < 0 = the
+// access log is not final.
+func witnessDiff(chain []Elem, rq Req, o witnessObs, pluginLines int) []string {
+	pred := Predict(chain, rq)
+	var d []string
+	if o.status != pred.Status {
+		d = append(d, fmt.Sprintf("client status %d, expected %d", o.status, pred.Status))
+	}
+	if got := o.hdr.Get(hdrResp); got != pred.RespMark {
+		d = append(d, fmt.Sprintf("client sees %s=%q, expected %q (the `set` of the innermost headers instance that ran)", hdrResp, got, pred.RespMark))
+	}
+	var inst []string
+	for k := range o.hdr {
+		if strings.HasPrefix(k, hdrInst) {
+			inst = append(inst, strings.ToLower(strings.TrimPrefix(k, hdrInst)))
+		}
+	}
+	sortStrings(inst)
+	if strings.Join(inst, ",") != strings.Join(pred.Inst, ",") {
+		d = append(d, fmt.Sprintf("headers instances visible to the client %v, expected %v", inst, pred.Inst))
+	}
+	if pred.RejectAt >= 0 {
+		if len(o.hits) != 0 {
+			d = append(d, fmt.Sprintf("the backend saw %d request(s) (%q) although plugin #%d (%v) rejects this request", len(o.hits), o.hits[0].URI, pred.RejectAt, chain[pred.RejectAt]))
+		}
+	} else {
+		if len(o.hits) != 1 {
+			d = append(d, fmt.Sprintf("the backend saw %d requests, expected 1", len(o.hits)))
+		} else {
+			// what the innermost listed headers instance set must be what the backend receives
+			want := pred.RespMark // same label: innermost headers instance of the whole chain
+			if o.hits[0].Req != want {
+				d = append(d, fmt.Sprintf("backend received %s=%q, expected %q (innermost request_set)", hdrReq, o.hits[0].Req, want))
+			}
+			if pred.RespRID && !o.hits[0].RID {
+				d = append(d, "request-id is in the chain but the backend received no X-Request-ID")
+			}
+		}
+	}
+	if pluginLines >= 0 && pluginLines != pred.LogLines {
+		d = append(d, fmt.Sprintf("the process output has %d access-log line(s) of the logging plugin (\"plugin request log\", path %s), expected %d: one per `logging` instance listed before the rejecting plugin (every instance when nothing rejects), none from an instance listed after the plugin that rejected the request", pluginLines, briefLine(o.logPath), pred.LogLines))
+	}
+	return d
 }
 
 // TestC17BinaryOrderWitness: valid chains of built-ins with >= 2 headers instances through the real
@@ -148,9 +238,17 @@ type witnessCase struct {
 func TestC17BinaryOrderWitness(t *testing.T) {
 	sub := lab.Sub("order-witness-binary", "rapid: the real helios binary with a valid chain of built-ins (length 2..5) that contains >= 2 `headers` instances (labels h<i>) and optionally custom-auth (ordinary or unusual non-empty apiKey; the request key is modelled as it arrives after the HTTP parser trimmed it) / size_limit / request-id / logging / gzip, "+
 		"one request through a live httptest backend; oracle (black box): the backend receives the request_set value of the innermost headers instance listed before it, the client receives the `set` value of the innermost "+
-		"instance that ran and the X-Verif-H-* marks of exactly the instances listed before a rejecting plugin; a rejected request (401/413) never reaches the backend; the request is sent with one of the method/header dressings the standard client can put on the wire (CORS preflight, OPTIONS, HEAD, PUT/PATCH/DELETE/PROPFIND, Origin, ...) or plain; after a graceful stop the process output (logging.format json) holds exactly one \"plugin request log\" line with the request's unique path per `logging` instance listed before the rejecting plugin (all when nothing rejects) and none from instances listed after it (`logging` is placed at a drawn spare position next to a rejecting plugin in 3 of 4 chains that have room); non-trivial = a headers instance on each side of a "+
+		"instance that ran and the X-Verif-H-* marks of exactly the instances listed before a rejecting plugin; a rejected request (401/413) never reaches the backend; the request is sent with one of the method/header dressings the standard client can put on the wire (CORS preflight, OPTIONS, HEAD, PUT/PATCH/DELETE/PROPFIND, GET carrying the body, Origin, ...) or plain, to a drawn request-target (default unique path, or a target family of target.go with a drawn query string); "+
+		"then a SWEEP over the request-target dimension through the same process: one further request per target family (ordinary application paths, exact conventional paths such as /health, /metrics, /favicon.ico, /.well-known/security.txt, sub-paths of /.well-known/acme-challenge/, /admin/, /static/, /debug/pprof/, dot and empty segments sent as they are, percent-escapes, a 2 KB path; drawn query string), each with its own request drawn for the chain (key right/wrong/absent, body, dressing), each under the same oracle - the statement's order and gating hold for every request, wherever it goes; "+
+		"after a graceful stop the process output (logging.format json) holds, for every request, exactly one \"plugin request log\" line with the request's URL path per `logging` instance listed before the rejecting plugin (all when nothing rejects) and none from instances listed after it (`logging` is placed at a drawn spare position next to a rejecting plugin in 3 of 4 chains that have room); non-trivial (first request) = a headers instance on each side of a "+
 		"plugin that rejects this request, or an accepted request with >= 2 headers instances")
 	sub.NontrivialFloor(0.50)
+	defer func() {
+		if m, _ := lastWitnessViolation.Load().(string); t.Failed() && m != "" {
+			// once more at the end of the test's output, after rapid's listing of the case
+			t.Logf("violation in order-witness-binary (the minimal failing case): %s", m)
+		}
+	}()
 	lab.Check(t, sub, 24, 240, func(rt *rapid.T) {
 		n := rapid.SampledFrom([]int{2, 3, 4, 4, 5, 5, 5}).Draw(rt, "len")
 		chain := make([]Elem, n)
@@ -194,17 +292,21 @@ func TestC17BinaryOrderWitness(t *testing.T) {
 				chain[rapid.SampledFrom(spare).Draw(rt, "rejecter_at")] = genRejecter(rt)
 			}
 		}
-		c := witnessCase{Chain: chain, Req: genReqFor(rt, chain)}
-		c.Req.ReqMark = "" // hop through a real proxy: keep the client mark out of the picture
-		// over a real socket the HTTP parser trims field values and CR/LF cannot be sent: the request
-		// is modelled with the value that ARRIVES (a padded key can never be matched, a whitespace-only
-		// configured key rejects everybody, a whitespace-only request value arrives empty)
-		c.Wire = c.Req.APIKey
-		if strings.ContainsAny(c.Wire, "\r\n") {
-			c.Wire = "wrong"
-		}
-		c.Req.APIKey = strings.Trim(c.Wire, " \t")
+		c := witnessCase{Chain: chain}
+		c.Req, c.Wire = asArrives(genReqFor(rt, chain))
 		pred := Predict(c.Chain, c.Req)
+		// the sweep over the request-target dimension: every family once, each with a request of its
+		// own drawn for this chain and a drawn query string
+		for _, f := range TargetFamilies {
+			rq := genReqFor(rt, chain)
+			rq.Target = f.Path + rapid.SampledFrom(TargetQueries).Draw(rt, "sweep_query")
+			var sr sweepReq
+			sr.Req, sr.Wire = asArrives(rq)
+			if sr.Wire == sr.Req.APIKey {
+				sr.Wire = ""
+			}
+			c.Sweep = append(c.Sweep, sr)
+		}
 
 		backend, seen := startBackend(t)
 		defer backend.Close()
@@ -235,27 +337,56 @@ func TestC17BinaryOrderWitness(t *testing.T) {
 		}
 		defer h.Kill()
 
-		wireReq := c.Req
-		wireReq.APIKey = c.Wire
-		path := fmt.Sprintf("/witness/p%d-%d", port, witnessSeq.Add(1))
-		status, hdr, err := doRequest(port, path, wireReq)
-		seen.mu.Lock()
-		hits, breq, brid := seen.hits, seen.req, seen.rid
-		seen.mu.Unlock()
+		// the requests, one at a time: what the backend receives between the start of a request and
+		// its response belongs to that request
+		type sent struct {
+			rq   Req
+			wire string
+			obs  witnessObs
+		}
+		all := []sent{{rq: c.Req, wire: c.Wire}}
+		for _, sr := range c.Sweep {
+			w := sr.Wire
+			if w == "" {
+				w = sr.Req.APIKey
+			}
+			all = append(all, sent{rq: sr.Req, wire: w})
+		}
+		usedPath := map[string]bool{}
+		kept := all[:0]
+		for _, s := range all {
+			s.obs.target = expandTarget(s.rq.Target, "/witness/{t}", fmt.Sprintf("p%d-%d", port, witnessSeq.Add(1)))
+			s.obs.logPath = targetPath(s.obs.target)
+			if usedPath[s.obs.logPath] { // an exact path is used once per process: its access-log lines are counted by path
+				continue
+			}
+			usedPath[s.obs.logPath] = true
+			wireReq := s.rq
+			wireReq.APIKey = s.wire
+			before := seen.count()
+			s.obs.status, s.obs.hdr, s.obs.err = doRequest(port, s.obs.target, wireReq)
+			s.obs.hits = seen.since(before)
+			kept = append(kept, s)
+			if s.obs.err != nil {
+				break
+			}
+		}
+		all = kept
 		// graceful stop: Helios waits for the handler of the request to return, and the logging plugin
 		// writes its line before it returns - after the exit the access log is final
 		_ = h.Signal(syscall.SIGTERM)
 		logFinal, _ := h.WaitExit(startBudget)
 		log := h.Log()
 		h.Kill()
-		pluginLines := 0
+		brief := briefLog(log, "") // for messages: every line cut to a readable length (2 KB paths)
+		pluginLines := map[string]int{}
 		for _, line := range strings.Split(log, "\n") {
 			var l struct {
 				Path    string `json:"path"`
 				Message string `json:"message"`
 			}
-			if json.Unmarshal([]byte(line), &l) == nil && l.Path == path && l.Message == "plugin request log" {
-				pluginLines++
+			if json.Unmarshal([]byte(line), &l) == nil && l.Message == "plugin request log" {
+				pluginLines[l.Path]++
 			}
 		}
 
@@ -294,6 +425,7 @@ func TestC17BinaryOrderWitness(t *testing.T) {
 		if c.Req.Dress != "" && wireDress(c.Req) != "" {
 			labels = append(labels, "dressed", "dress="+c.Req.Dress)
 		}
+		labels = append(labels, targetLabels(c.Req.Target)...)
 		if logFinal {
 			lb, la := 0, 0
 			for i, e := range c.Chain {
@@ -313,56 +445,91 @@ func TestC17BinaryOrderWitness(t *testing.T) {
 		} else {
 			labels = append(labels, "log-not-final")
 		}
-		sub.Case(c, nt, labels...)
-
-		if err != nil {
-			rt.Fatalf("chain %v request %+v: request through helios failed: %v; log:\n%s", c.Chain, c.Req, err, log)
-		}
-		var d []string
-		if status != pred.Status {
-			d = append(d, fmt.Sprintf("client status %d, expected %d", status, pred.Status))
-		}
-		if got := hdr.Get(hdrResp); got != pred.RespMark {
-			d = append(d, fmt.Sprintf("client sees %s=%q, expected %q", hdrResp, got, pred.RespMark))
-		}
-		var inst []string
-		for k := range hdr {
-			if strings.HasPrefix(k, hdrInst) {
-				inst = append(inst, strings.ToLower(strings.TrimPrefix(k, hdrInst)))
-			}
-		}
-		sortStrings(inst)
-		if strings.Join(inst, ",") != strings.Join(pred.Inst, ",") {
-			d = append(d, fmt.Sprintf("headers instances visible to the client %v, expected %v", inst, pred.Inst))
-		}
-		if pred.RejectAt >= 0 {
-			if hits != 0 {
-				d = append(d, fmt.Sprintf("the backend saw %d request(s) although plugin #%d rejected it", hits, pred.RejectAt))
-			}
-		} else {
-			if hits != 1 {
-				d = append(d, fmt.Sprintf("the backend saw %d requests, expected 1", hits))
+		// the sweep: how many requests went out, and how they were decided
+		sweepRejected, sweepAccepted := 0, 0
+		for _, s := range all[1:] {
+			if Predict(c.Chain, s.rq).RejectAt >= 0 {
+				sweepRejected++
 			} else {
-				// what the innermost listed headers instance set must be what the backend receives
-				want := pred.RespMark // same label: innermost headers instance of the whole chain
-				if breq != want {
-					d = append(d, fmt.Sprintf("backend received %s=%q, expected %q (innermost request_set)", hdrReq, breq, want))
-				}
-				if pred.RespRID && !brid {
-					d = append(d, "request-id is in the chain but the backend received no X-Request-ID")
-				}
+				sweepAccepted++
 			}
 		}
-		if logFinal && pluginLines != pred.LogLines {
-			d = append(d, fmt.Sprintf("the process output has %d access-log line(s) of the logging plugin (\"plugin request log\", path %s), expected %d: one per `logging` instance listed before the rejecting plugin (every instance when nothing rejects), none from an instance listed after the plugin that rejected the request", pluginLines, path, pred.LogLines))
+		if len(all) > 1 {
+			labels = append(labels, "target-sweep")
+		}
+		if sweepRejected > 0 && sweepAccepted > 0 {
+			labels = append(labels, "target-sweep-rejected-and-accepted")
+		}
+		sub.Case(c, nt, labels...)
+		sub.Count("sweep-requests", len(all)-1)
+		sub.Count("sweep-requests-rejected", sweepRejected)
+
+		for i, s := range all {
+			which := "request"
+			if i > 0 {
+				which = fmt.Sprintf("target-sweep request #%d (family %s)", i, targetFamily(s.rq.Target))
+			}
+			wireReq := s.rq
+			wireReq.APIKey = s.wire
+			method := wireMethod(wireReq)
+			if s.obs.err != nil {
+				msg := fmt.Sprintf("chain %v %s %s %s %s: request through helios failed: %v; log (start-up and this request):\n%s", c.Chain, which, method, briefLine(s.obs.target), briefReq(s.rq), s.obs.err, briefLog(log, s.obs.logPath))
+				lastWitnessViolation.Store(msg)
+				rt.Fatalf("%s", msg)
+			}
+			lines := -1
+			if logFinal {
+				lines = pluginLines[s.obs.logPath]
+			}
+			if d := witnessDiff(c.Chain, s.rq, s.obs, lines); len(d) > 0 {
+				msg := fmt.Sprintf("chain %v %s %s %s %s: %s; log (start-up and this request):\n%s", c.Chain, which, method, briefLine(s.obs.target), briefReq(s.rq), strings.Join(d, "; "), briefLog(log, s.obs.logPath))
+				lastWitnessViolation.Store(msg)
+				rt.Fatalf("%s", msg)
+			}
 		}
 		if lab.HasPanicTrace(log) {
-			d = append(d, "panic trace in the helios log")
-		}
-		if len(d) > 0 {
-			rt.Fatalf("chain %v request %+v: %s; log:\n%s", c.Chain, c.Req, strings.Join(d, "; "), log)
+			rt.Fatalf("chain %v: panic trace in the helios log:\n%s", c.Chain, brief)
 		}
 	})
+}
+
+var lastWitnessViolation atomic.Value
+
+// briefReq prints a request for a message (a 2 KB key is shortened).
+func briefReq(rq Req) string {
+	rq.APIKey = shortKey(rq.APIKey)
+	rq.ExtraKeys = append([]string{}, rq.ExtraKeys...)
+	for i, k := range rq.ExtraKeys {
+		rq.ExtraKeys[i] = shortKey(k)
+	}
+	return fmt.Sprintf("%+v", rq)
+}
+
+// briefLine cuts a long line for a message.
+func briefLine(l string) string {
+	if len(l) > 300 {
+		return fmt.Sprintf("%s...(%d bytes)...%s", l[:150], len(l), l[len(l)-100:])
+	}
+	return l
+}
+
+// briefLog cuts every line of the process output to a readable length; with a path, only the
+// lines that are not about a request (start-up, shutdown, errors) and the lines about that path
+// are kept.
+func briefLog(log, path string) string {
+	var out []string
+	for _, l := range strings.Split(log, "\n") {
+		if path != "" {
+			var j struct {
+				Path *string `json:"path"`
+			}
+			if json.Unmarshal([]byte(l), &j) == nil && j.Path != nil && *j.Path != path {
+				continue
+			}
+		}
+		out = append(out, briefLine(l))
+	}
+	return strings.Join(out, "\n")
 }
 
 func hasEdgeKey(chain []Elem) bool {
@@ -390,7 +557,7 @@ var witnessSeq atomic.Uint64
 func wireDress(rq Req) string {
 	switch rq.Dress {
 	case "cors-preflight", "cors-preflight-min", "options", "put", "patch", "delete", "origin", "origin-acrm",
-		"method-override", "propfind", "cookie", "auth-header", "range", "forwarded":
+		"method-override", "propfind", "cookie", "auth-header", "range", "forwarded", "get-body":
 		return rq.Dress
 	case "head":
 		if rq.Body == 0 {
@@ -400,12 +567,9 @@ func wireDress(rq Req) string {
 	return ""
 }
 
-// doRequest sends one request to the proxy port with a fresh connection.
-func doRequest(port int, path string, rq Req) (int, http.Header, error) {
-	tr := &http.Transport{DisableKeepAlives: true, DisableCompression: true,
-		DialContext: (&net.Dialer{Timeout: 5 * time.Second}).DialContext}
-	defer tr.CloseIdleConnections()
-	cl := &http.Client{Transport: tr, Timeout: lab.NoProgress}
+// wireRequest builds the request as the standard client will send it: path is the request-target
+// (path[?query]), sent as it is - the client neither cleans dot segments nor re-encodes escapes.
+func wireRequest(port int, path string, rq Req) (*http.Request, error) {
 	method := "GET"
 	var body io.Reader
 	if rq.Body > 0 {
@@ -414,7 +578,7 @@ func doRequest(port int, path string, rq Req) (int, http.Header, error) {
 	}
 	req, err := http.NewRequest(method, fmt.Sprintf("http://127.0.0.1:%d%s", port, path), body)
 	if err != nil {
-		return 0, nil, err
+		return nil, err
 	}
 	applyDress(req, wireDress(rq), rq.APIKey)
 	if rq.APIKey != "" {
@@ -422,6 +586,28 @@ func doRequest(port int, path string, rq Req) (int, http.Header, error) {
 	}
 	if rq.Gzip {
 		req.Header.Set("Accept-Encoding", "gzip")
+	}
+	return req, nil
+}
+
+// wireMethod is the method the request goes out with.
+func wireMethod(rq Req) string {
+	req, err := wireRequest(1, "/", rq)
+	if err != nil {
+		return "?"
+	}
+	return req.Method
+}
+
+// doRequest sends one request to the proxy port with a fresh connection.
+func doRequest(port int, path string, rq Req) (int, http.Header, error) {
+	tr := &http.Transport{DisableKeepAlives: true, DisableCompression: true,
+		DialContext: (&net.Dialer{Timeout: 5 * time.Second}).DialContext}
+	defer tr.CloseIdleConnections()
+	cl := &http.Client{Transport: tr, Timeout: lab.NoProgress}
+	req, err := wireRequest(port, path, rq)
+	if err != nil {
+		return 0, nil, err
 	}
 	res, err := cl.Do(req)
 	if err != nil {
